@@ -199,3 +199,46 @@ theorem wellSpaced_spacedText (f : Nat → Bytes) (ls : List (Rule × Bytes)) (w
     simp only [isSpaces, List.all_cons, Bool.and_eq_true] at hw
     exact space_isBreak c hw.1
 
+/-! ## Concrete lexemes and layouts used by the examples of `Proofs/C08Source.lean` -/
+
+theorem lxX : Lexeme .rIdent [120] := Lexeme.word 120 [] [] (by decide) (by decide) (Or.inl rfl)
+theorem lxG : Lexeme .rIdent [103] := Lexeme.word 103 [] [] (by decide) (by decide) (Or.inl rfl)
+theorem lxBar : Lexeme .rAny [124] := Lexeme.punct 124 (by decide)
+theorem lxComma : Lexeme .rAny [44] := Lexeme.punct 44 (by decide)
+theorem lxF : Lexeme .rKeyword [102, 58] := Lexeme.keyword 102 [] [] (by decide) (by decide) (Or.inl rfl)
+theorem lx1 : Lexeme .rInt [49] := Lexeme.int [] [49] (Or.inl rfl) (by decide) (by decide)
+theorem lx2 : Lexeme .rInt [50] := Lexeme.int [] [50] (Or.inl rfl) (by decide) (by decide)
+
+/-- the lexemes of `x | f: 1, 2 | g` -/
+def exLexemes : List (Rule × Bytes) :=
+  [(.rIdent, [120]), (.rAny, [124]), (.rKeyword, [102, 58]), (.rInt, [49]), (.rAny, [44]), (.rInt, [50]),
+   (.rAny, [124]), (.rIdent, [103])]
+
+theorem exLexemes_ok : ∀ x ∈ exLexemes, Lexeme x.1 x.2 := by
+  intro x hx
+  simp only [exLexemes, List.mem_cons, List.mem_nil_iff, or_false] at hx
+  rcases hx with rfl | rfl | rfl | rfl | rfl | rfl | rfl | rfl
+  · exact lxX
+  · exact lxBar
+  · exact lxF
+  · exact lx1
+  · exact lxComma
+  · exact lx2
+  · exact lxBar
+  · exact lxG
+
+theorem exSepF : Separators (fun i => if i = 0 then [] else [32]) :=
+  ⟨fun i => by dsimp only; split <;> rfl, fun i hi => by simp [Nat.ne_of_gt hi]⟩
+
+theorem exSepG : Separators (fun i => [[9], [10], [13, 10], [32, 32], [32], [32], [11], [12]].getD i [32]) :=
+  ⟨fun i => by rcases i with _|_|_|_|_|_|_|_|i <;> rfl, fun i _ => by rcases i with _|_|_|_|_|_|_|_|i <;> simp⟩
+
+/-- lexemes may touch where they `fit`: `x|f:1,2|g` is well spaced without any whitespace … -/
+def exTight : List Piece :=
+  [⟨[], .rIdent, [120]⟩, ⟨[], .rAny, [124]⟩, ⟨[], .rKeyword, [102, 58]⟩, ⟨[], .rInt, [49]⟩, ⟨[], .rAny, [44]⟩,
+   ⟨[], .rInt, [50]⟩, ⟨[], .rAny, [124]⟩, ⟨[], .rIdent, [103]⟩]
+
+theorem exTight_ok : WellSpaced (exTight ++ [semiPiece []]) :=
+  ⟨rfl, lxX, rfl, rfl, lxBar, rfl, rfl, lxF, rfl, rfl, lx1, rfl, rfl, lxComma, rfl, rfl, lx2, rfl, rfl, lxBar, rfl,
+   rfl, lxG, rfl, rfl, lexeme_semi, rfl, trivial⟩
+
